@@ -713,6 +713,7 @@ class Replay:
             common.NCPU, initializer=_worker_init,
             initargs=({"cli": build.cli, "root": build.root, "inproc": build.inproc}, cfgs, judge_name, self.opts))
         self.buf, self.pending, self.chunk, self.nchunks = [], [], chunk, 0
+        self._pids = set(w.pid for w in self.pool._pool)
         self.worker = process_chunk
         if worker:
             m_, f_ = worker.split(":")
@@ -745,7 +746,17 @@ class Replay:
     def finish(self):
         self.flush()
         for p in self.pending:
-            r = p.get(timeout=7200)
+            t0 = time.time()
+            while not p.ready():
+                p.wait(2)
+                # a worker that died in the middle of a chunk would make this wait for ever
+                if set(w.pid for w in self.pool._pool) != self._pids or any(w.exitcode is not None for w in self.pool._pool):
+                    self.pool.terminate()
+                    raise common.Infra("a replay worker process died in the middle of a chunk")
+                if time.time() - t0 > 7200:
+                    self.pool.terminate()
+                    raise common.Infra("replay chunk timed out")
+            r = p.get()
             self.v.count(r["evals"])
             for k in r["nontrivial"]:
                 self.v.nontrivial(k)
